@@ -134,3 +134,41 @@ fn c17_vec_znx_accessors_layout() {
     assert!(v.raw()[n * (j * cols + i) + k] == val, "C17:at_mut writes through to the buffer at the same offset");
     kani::cover!(i == 1 && j == 1 && n == 2, "C17:reachable");
 }
+
+// ------------------------------------------------------------------------------------------------
+// C17 — representation invariant of an OWNED VecZnx across size changes (seed C17-3): after alloc, set_size (within capacity) and
+// reallocate_limbs (grow or shrink) the capacity the header advertises is backed by the buffer:
+//     size <= max_size  and  n * cols * max_size * 8 <= data.len()
+// (ZnxView::at / at_mut / raw build their slices from these fields without consulting data.len()), and the limbs kept by a
+// reallocation keep their contents.  Shapes n, cols <= 2 and limb counts <= 3, all symbolic: bounded in shape.
+// ------------------------------------------------------------------------------------------------
+#[kani::proof]
+#[kani::unwind(50)]
+#[kani::stub(alloc::fmt::format, fmt_stub)]
+fn c17_vec_znx_reallocate_limbs_invariant() {
+    let (n, cols, s0, s1, new_size): (usize, usize, usize, usize, usize) = (kani::any(), kani::any(), kani::any(), kani::any(), kani::any());
+    kani::assume(n >= 1 && n <= 2 && cols >= 1 && cols <= 2 && s0 <= 3 && s1 <= s0 && new_size <= 3);
+    let mut v: VecZnx<Vec<u8>> = VecZnx::alloc(n, cols, s0);
+    let mut t = 0;
+    while t < n * cols * s0 {
+        v.raw_mut()[t] = kani::any();
+        t += 1;
+    }
+    v.set_size(s1);
+    assert!(wf(v.n, v.cols, v.size, v.max_size, v.data.len()), "C17:set_size within capacity keeps the capacity backed by the buffer");
+    let keep = if s1 < new_size { s1 } else { new_size };
+    let probe: usize = kani::any();
+    kani::assume(probe < n * cols * keep);
+    let before = v.raw()[probe];
+    v.reallocate_limbs(new_size);
+    assert!(v.size == new_size, "C17:reallocate_limbs sets the limb count");
+    assert!(wf(v.n, v.cols, v.size, v.max_size, v.data.len()), "C17:reallocate_limbs leaves max_size backed by the buffer (n*cols*max_size*8 <= data.len())");
+    assert!(v.raw()[probe] == before, "C17:reallocate_limbs keeps the contents of the limbs that remain");
+    // whatever limb count is accepted afterwards is really there
+    let s2: usize = kani::any();
+    kani::assume(s2 <= v.max_size);
+    v.set_size(s2);
+    assert!(v.n * v.cols * v.size * 8 <= v.data.len(), "C17:every accepted limb count is backed by the buffer");
+    kani::cover!(new_size < s1 && s1 < s0, "C17:shrink after shrink reachable");
+    kani::cover!(new_size > s0, "C17:grow reachable");
+}
